@@ -5,7 +5,6 @@ import (
 	"go/ast"
 	"go/token"
 	"go/types"
-	"os"
 	"strings"
 
 	"golang.org/x/tools/go/ssa"
@@ -493,9 +492,7 @@ func C19(p *engine.Prog, r *engine.Report) {
 		r.Check(bad == "", "C19-R5", "ignored file "+rel, rel, "no reference to gated identifiers (syntax scan)", "build-excluded file references "+bad)
 	}
 	r.Floor("C19-R5", 5, "read: 1 store + 2 caller sets + 1 header read + excluded files")
-	if os.Getenv("VERIF_C19_R6") != "" { // armed once defect D11 is triaged
-		c19R6(p, r)
-	}
+	c19R6(p, r)
 }
 
 // c19R6: the key every server is created with is the node's key. (a) every rpc.NewServer call gets a
